@@ -33,20 +33,33 @@ def score_case(rnd, rule, n=None):
         w = gen.weight(rnd, "int")
         spec = canon.spec_profile(cs, [canon.spec_ballot(w=w, s={c: 1}) for c in cs] +
                                   ([canon.spec_ballot(w=w, s={cs[0]: 1})] if rnd.random() < 0.5 else []))
+    if rnd.random() < gen.MAGNIFY_P:
+        spec = gen.magnify(rnd, spec)
+        return {"cfg": cfg, "profile": spec, "tag": "magnified-score"}
     return {"cfg": cfg, "profile": spec, "tag": "score"}
 
 
 def ranking_case(rnd, rule, maxn=6):
     integer = rule == "PluralityVeto" or (rule in ("STV", "Alaska") and rnd.random() < 0.45)
-    if rule in rules.UNTIED_ONLY:
-        spec, m, tag = gen.any_ranked(rnd, integer=integer, maxn=maxn)
+    if maxn >= 6 and rnd.random() < gen.SCALE_P:
+        # beyond hand size: 8..12 candidates, dozens of ballots, huge / tiny weights.  Integer profiles keep plain weights
+        # (random transfer and PluralityVeto work voter by voter), pairwise rules get at most 3 unlisted candidates per
+        # ballot (ballot_fill expands k! completions)
+        spec, m = gen.scale(rnd, integer=integer, mode="plain" if integer else None,
+                            maxmiss=3 if rule in rules.PAIRWISE else None)
+        tag = "scale"
+    elif rule in rules.UNTIED_ONLY:
+        spec, m, tag = gen.any_ranked(rnd, integer=integer, maxn=maxn, scale_ok=False)
     else:
         if rnd.random() < 0.5:
-            spec, m, tag = gen.any_ranked(rnd, integer=integer, maxn=maxn)
+            spec, m, tag = gen.any_ranked(rnd, integer=integer, maxn=maxn, scale_ok=False)
         else:
             spec = gen.ranked(rnd, ties=True, wkind="int" if integer else None, maxn=maxn)
             m, tag = rnd.randint(1, len(spec["cands"])), "tied"
     n = len(spec["cands"])
+    if not integer and tag != "scale" and rnd.random() < gen.MAGNIFY_P:
+        # the same hand-sized profile at a magnitude where doubles no longer separate neighbouring tallies
+        spec, tag = gen.magnify(rnd, spec), "magnified-" + tag
     if rnd.random() < 0.5:
         m = rnd.randint(1, n)
     cfg = rules.random_cfg(rnd, rule, n, m=min(m, n), integer=integer)
